@@ -8,10 +8,13 @@ database/sql driver; every recorded call validated event by event by Transact_Tr
 def describe(rj):
     ev = rj["event"]
     cfg = rj["trace"][0].get("cfg", {})
-    outs = [s["out"] + ("+%d" % s["ex"] if s["ex"] else "") for s in cfg.get("steps", [])]
-    return ("Transact with %d argument(s), steps %s, begin=%s commit=%s rollback=%s: event #%d %s is "
-            "not a step of Transact.tla (events before it were accepted)" %
+    outs = [s["out"] + ("+%d" % s["ex"] if s["ex"] else "") +
+            ("/ends tx by %s" % s["fin"] if s.get("fin", "none") != "none" else "")
+            for s in cfg.get("steps", [])]
+    return ("Transact with %d argument(s), steps %s, begin=%s commit=%s rollback=%s, context cancelled at "
+            "%s: event #%d %s is not a step of Transact.tla (events before it were accepted)" %
             (cfg.get("n", -1), outs, cfg.get("begin"), cfg.get("commit"), cfg.get("rollback"),
+             {-1: "never", 0: "before the call"}.get(cfg.get("cancel", -1), "step %s" % cfg.get("cancel")),
              rj["line"], {k: v for k, v in ev.items() if k != "what"}))
 
 
@@ -20,10 +23,14 @@ def run(ctx):
     # 1. the design, exhaustively; the pinned rule as non-vacuity witness
     ctx.tlc_mc(fam, "Transact", "Transact_MC.cfg", workers=4, coverage=ctx.thorough)
     ctx.tlc_mc(fam, "Transact", "Transact_MC_bug.cfg", workers=1, expect_violation="CommitIffAllOk")
+    # ... with steps that end the transaction themselves and a context cancelled at any point
+    ctx.tlc_mc(fam, "Transact", "Transact_MC_kill.cfg", workers=4, coverage=ctx.thorough)
+    ctx.tlc_mc(fam, "Transact", "Transact_MC_bug2.cfg", workers=1, expect_violation="RetRight")
     if ctx.thorough:
         ctx.tlc_mc(fam, "Transact", "Transact_MC_big.cfg", workers=16, timeout=3000, heap="16g")
+        ctx.tlc_mc(fam, "Transact", "Transact_MC_kill_big.cfg", workers=16, timeout=3000, heap="16g")
     # 2. plans out of the spec (line 1 = the environment's choices, rest = expected events)
-    pdir, plans = ctx.tlc_plans(fam, "Transact_Gen", "Transact_Gen.cfg", num=ctx.q(400, 6000), depth=20)
+    pdir, plans = ctx.tlc_plans(fam, "Transact_Gen", "Transact_Gen.cfg", num=ctx.q(400, 6000), depth=40)
     # 3. execute on the real code
     binary = ctx.go_build("c18")
     args = ["-plans", pdir, "-out", ctx.path("calls.ndjson"), "-seed", ctx.seed,
@@ -51,14 +58,21 @@ def run(ctx):
         "second Rollback/Commit that database/sql answers with ErrTxDone is invisible (and harmless)",
         "harness module declares go 1.19 like neptune itself, so panic(nil) has pre-1.21 semantics "
         "(recover() returns nil); step outcome `exit` is runtime.Goexit",
+        "a transaction ended behind Transact's back (a step commits / rolls back the handle it was given, "
+        "or database/sql rolls back after the handle's context was cancelled; the cancelling step waits "
+        "until that rollback reached the driver) makes Transact's own commit impossible: the caller must "
+        "get a non-nil error even if the step committed successfully (decision stated in Transact.tla)",
         "returned error is classified by errors.As/Is against the step / driver sentinels; 'describes "
         "the panic' = the error text contains the panic value's text",
     ]
     return ctx.finish(
-        rule="one trace = one Transact call; plans = TLC simulation of Transact.tla (0..3 steps, 5 "
-             "outcomes, 0..2 statements, 0..3 arguments, begin/commit/rollback faults; distinct by content) "
-             "+ exhaustive enumeration of all step lists up to length 3 (thorough 4) over 8 step variants "
-             "and up to length 2 (3) over all 14 variants, each with every fault placement that matters "
+        rule="one trace = one Transact call; plans = TLC simulation of Transact.tla (0..4 steps, 5 "
+             "outcomes, 0..2 statements, step ends the transaction itself by commit/rollback or not, 0..2 "
+             "arguments, begin/commit/rollback faults, context cancelled never / before the call / inside "
+             "step k; distinct by content) "
+             "+ exhaustive enumeration of all step lists up to length 3 (thorough 4) over 11 step variants "
+             "and up to length 2 (3) over all 23 variants, each with every fault placement that matters and "
+             "(lists up to 2 steps: every; longer: sampled) cancellation points "
              "+ seeded random lists up to 12 (24) steps; "
              "arguments are raw steps or (nested / empty) Combine groups",
         explanation="Transact.tla model-checked exhaustively; every driver event (begin, exec+in-tx flag, "
